@@ -75,6 +75,7 @@ class World(object):
                     del pending[n]
         self.bclasses['IOError'] = self.bclasses['OSError']
         self.bclasses['EnvironmentError'] = self.bclasses['OSError']
+        self.bclasses['Thread'].attrs['start'] = NativeFunc('Thread.start', _thread_start)
         self.builtins = self.make_builtins()
         self.native_modules = self.make_native_modules()
         self.boot = None
@@ -280,6 +281,13 @@ class World(object):
             return CONSTRUCTORS[cls.name](ex, args, kwargs)
         if cls.name == 'object':
             return SObj(cls)
+        if cls is self.bclasses['Thread']:
+            # threading.Thread(...) / threading.Timer(...): an object that is never run (see _thread_start)
+            o = SObj(cls)
+            o.fields['name'] = kwargs.get('name')
+            o.fields['_target'] = kwargs.get('target', args[1] if len(args) > 1 else None)
+            o.fields['daemon'] = False
+            return o
         raise Unsupported('construct builtin %s' % cls.name)
 
     # -------------------------------------------------------------- builtins
@@ -320,6 +328,7 @@ class World(object):
         mod('os', {
             'strerror': NativeFunc('os.strerror', lambda ex, a, k: OPAQUE),
             'urandom': NativeFunc('os.urandom', _urandom),
+            'system': NativeFunc('os.system', _os_system),
             'getenv': NativeFunc('os.getenv', lambda ex, a, k: None),
             'environ': SDict(),
             'name': 'posix',
@@ -335,6 +344,7 @@ class World(object):
             'Condition': NativeFunc('threading.Condition',
                                     lambda ex, a, k: CondVal(a[0] if a else LockVal(True))),
             'Thread': self.bclasses['Thread'],
+            'Timer': self.bclasses['Thread'],
             'current_thread': Missing('threading.current_thread'),
         })
         mod('collections', {
@@ -379,6 +389,7 @@ class World(object):
             'call_arg': NativeFunc('call_arg', _call_arg),
             'ideal': NativeFunc('ideal', _ideal),
             'call_ret': NativeFunc('call_ret', _call_ret),
+            'urandom_draws': NativeFunc('urandom_draws', _urandom_draws),
             'was_called': NativeFunc('was_called', lambda ex, a, k: a[0] in ex.ghost.get('call_args', {})),
             'entries_none_from': NativeFunc('entries_none_from', _entries_none_from),
         })
@@ -614,7 +625,59 @@ class ReMatch(N.NativeObj):
 
 def _urandom(ex, a, k):
     n = a[0]
-    return ex.fresh_bytes('urandom', length=n)
+    v = ex.fresh_bytes('urandom', length=n)
+    ex.ghost.setdefault('urandom', []).append(v)     # ghost: the draws of this path, for freshness clauses
+    return v
+
+
+def _os_system(ex, a, k):
+    """os.system(cmd): the exit status of an external command is an arbitrary integer (nothing else is modelled)"""
+    v = SInt(z3.Int(ex.fresh_name('os.system')))
+    ex.nondet.append(('int', v))
+    return v
+
+
+class FileVal(N.NativeObj):
+    """what open() returns for a file outside the verified sources: read() yields arbitrary octets"""
+    def __init__(self, binary):
+        self.binary = binary
+
+    def getattr(self, ex, name):
+        if name == 'read':
+            if not self.binary:
+                return Missing('read() of a text file')
+            return NativeFunc('file.read', lambda ex_, a, k: ex_.fresh_bytes('file.read'))
+        if name == 'close':
+            return NativeFunc('file.close', lambda ex_, a, k: None)
+        return Missing('file.' + name)
+
+
+def b_open(ex, a, k):
+    """open(path, mode): the file system is not modelled - the call fails with an OSError or returns a file of
+    arbitrary content"""
+    mode = a[1] if len(a) > 1 else k.get('mode', 'r')
+    if ex.choose(2) == 1:
+        ex.throw('FileNotFoundError', 'No such file or directory')
+    return FileVal(isinstance(mode, str) and 'b' in mode)
+
+
+def _thread_start(ex, a, k):
+    """Thread.start() / Timer.start(): threads are not executed.  Every contract is verified under the assumption
+    that the function runs sequentially in its caller's thread; code that starts a thread of its own leaves that
+    assumption.  With the contract hook no_threads this is an obligation (C15: a driver call that spawns a thread
+    lets a second thread drive the device); otherwise the contract is undecided."""
+    ex.ghost['threads_started'] = ex.ghost.get('threads_started', 0) + 1
+    if ex.hooks.get('no_threads'):
+        ex.oblige('starts-no-thread', False,
+                  detail='the function under contract starts a thread (Thread/Timer.start()): the started thread '
+                         'runs outside the caller\'s lock')
+        return None
+    raise Unsupported('Thread.start() in code under contract (threads are not executed)')
+
+
+def _urandom_draws(ex, a, k):
+    """spec builtin: the values os.urandom returned so far on this path (since function entry)"""
+    return STuple(ex.ghost.get('urandom', []))
 
 
 def _time_time(ex, a, k):
@@ -1356,7 +1419,7 @@ def b_set_within(ex, a, k):
 
 
 BUILTIN_FUNCS = {
-    'set_within': b_set_within,
+    'set_within': b_set_within, 'open': b_open,
     'len': b_len, 'range': b_range, 'isinstance': b_isinstance, 'issubclass': b_issubclass,
     'min': b_minmax('min'), 'max': b_minmax('max'), 'sum': b_sum, 'abs': b_abs, 'sorted': b_sorted,
     'reversed': b_reversed, 'enumerate': b_enumerate, 'zip': b_zip, 'map': b_map, 'filter': b_filter,
